@@ -428,18 +428,25 @@ def ranks(ctx):
     loops = [cands[0][1]]
     lp = loops[0]
     var = lp.target.elts[1].id
+    keyvar = lp.target.elts[0].id
+    # the group the records go to: a name bound to <group>.create_group("running_state")
+    rgroups = {norm(n.targets[0]) for n in ast.walk(fw.node) if isinstance(n, ast.Assign) and isinstance(n.value, ast.Call)
+               and isinstance(n.value.func, ast.Attribute) and n.value.func.attr in ("create_group", "require_group")
+               and n.value.args and isinstance(n.value.args[0], ast.Constant) and n.value.args[0].value == "running_state"}
     stores = [s for s in lp.body if isinstance(s, ast.Assign) and isinstance(s.targets[0], ast.Subscript)
-              and norm(s.targets[0].value) == "running_grp"]
+              and norm(s.targets[0].value) in rgroups and norm(s.targets[0].slice) == keyvar]
     if len(stores) != 1:
-        raise AnalysisError("save_time_step no longer stores each record with running_grp[key] = ...")
+        raise AnalysisError("the frame writer no longer stores each record with <running_state group>[key] = ...")
     pre = [s for s in lp.body if s is not stores[0]]
-    # reader: required rank per record name
+    # reader: required rank per record name.  A list is tied to a record by the key read in the appended value.
     need: Dict[str, int] = {}
     lists: Dict[str, str] = {}
     for n in ast.walk(fr.node):
-        if isinstance(n, ast.Call) and norm(n.func).endswith(".append") and n.args and isinstance(n.args[0], ast.Call):
-            sub = [x for x in ast.walk(n.args[0]) if isinstance(x, ast.Subscript) and norm(x.value) == "grp" and isinstance(x.slice, ast.Constant)]
-            if sub and isinstance(n.func.value, ast.Name):
+        if isinstance(n, ast.Call) and isinstance(n.func, ast.Attribute) and n.func.attr == "append" and isinstance(n.func.value, ast.Name) \
+                and n.args and isinstance(n.args[0], ast.Call):
+            sub = [x for x in ast.walk(n.args[0]) if isinstance(x, ast.Subscript) and isinstance(x.value, ast.Name)
+                   and isinstance(x.slice, ast.Constant) and isinstance(x.slice.value, str)]
+            if sub:
                 lists[n.func.value.id] = sub[0].slice.value
     for n in ast.walk(fr.node):
         if isinstance(n, ast.Call) and norm(n.func).endswith("concatenate") and n.args and isinstance(n.args[0], ast.Name) \
